@@ -175,6 +175,16 @@ OfferStaleClassHash(v, var) ==
   /\ act' = Act("OfferStaleClassHash", v, var, "", "")
   /\ Process([Pristine(v, var) EXCEPT !.classOK = FALSE])
 
+(* a valid successor whose write batch fails to commit (environment fault: one failed
+   Batch.Write); the caller sees an error and nothing may have changed - in particular the same
+   block offered again must be accepted *)
+OfferCommitFails(v, var) ==
+  /\ CanGrow /\ v \in NextVersions
+  /\ act' = Act("OfferCommitFails", v, var, "", "")
+  /\ cur' = Pristine(v, var)
+  /\ Reject("store", "io") /\ db' = db
+  /\ UNCHANGED pending
+
 (* sync verifies ahead: SanityCheckNewHeight now, Store later (possibly after a competitor) *)
 VerifyAhead(v, var) ==
   /\ CanGrow /\ v \in NextVersions /\ Cardinality(pending) < MaxPending
@@ -207,6 +217,7 @@ Next ==
   \/ \E v \in VSet, var \in 1..Variants, k \in {"skip", "repeat"} : OfferWrongNumber(v, var, k)
   \/ \E v \in VSet, var \in 1..Variants, k \in {"root", "diff", "oldroot"} : OfferWrongRoot(v, var, k)
   \/ \E v \in VSet, var \in 1..Variants : OfferStaleClassHash(v, var)
+  \/ \E v \in VSet, var \in 1..Variants : OfferCommitFails(v, var)
   \/ \E v \in VSet, var \in 1..Variants : VerifyAhead(v, var)
   \/ \E b \in pending : StorePending(b)
 
